@@ -454,6 +454,14 @@ func oracleState(lr *LifeRun, ix *lifeIndex, r *fw.Result) {
 			}
 		}
 		// final state
+		if lr.Outcome == sim.RunHang {
+			// nothing is alive, nothing is pending, nothing moves any more: a
+			// process left between two launches or in the middle of a stop has
+			// nothing left to wait for
+			if fs, ok := lr.Final[name]; ok && (fs.Status == types.ProcessStateRestarting || fs.Status == types.ProcessStateTerminating || fs.Status == types.ProcessStateLaunching) && !ix.aliveAt(name, len(ix.ev)+1) {
+				r.Add("C09", "transient-at-end:"+fs.Status, "%s remains in transient status %s although no command is alive and nothing moves any more (Run() hangs)", name, fs.Status)
+			}
+		}
 		if lr.Outcome == sim.RunReturned && lr.Settled {
 			fs, ok := lr.Final[name]
 			if ok {
